@@ -9,7 +9,7 @@ import random as _random
 from .common import *
 from ..oracle import RaftOracle, INV_PROP
 from ..workload import KVApp, payload
-from ..boot import M
+from ..boot import M, priv
 
 PROP = 'C11'
 LEVEL = 'exploration'
@@ -23,7 +23,8 @@ RULE = ('one case = one benign-schedule execution of a 2-3 voter cluster in whic
         'multiple of the batch size or exceeds the batch size, and all commands were applied on every replica')
 COMPONENTS_REAL = REAL_CLUSTER
 COMPONENTS_STUB = STUB_CLUSTER
-ASSUMPTIONS = ASSUME_CLUSTER + ['benign schedule: no faults, small latencies (the property is about inputs/configurations)']
+ASSUMPTIONS = ASSUME_CLUSTER + ['benign schedule: no faults, small latencies (the property is about inputs/configurations); the only '
+                                'fault, in a marked share of the random cases, is the loss of the connection that carries a chunked entry']
 BATCHES = [1, 7, 64, 200, 1024, 4096, 65536]
 BUDGET = dict(quick=dict(runs=176, wall=80, per_run_wall=70), thorough=dict(runs=1200, wall=900, per_run_wall=200))
 MINIMISE = True
@@ -120,6 +121,8 @@ class C11Sched(Scheduler):
         self.rounds = 0
         self.max_rounds = cfg['sched'].get('c11_rounds', 600)
         self.retries = 0
+        self.linkloss = bool((cfg.get('case') or {}).get('linkloss'))
+        self.resets_left = 0
 
     def _round(self):
         w, rng = self.w, self.rng
@@ -149,6 +152,19 @@ class C11Sched(Scheduler):
         if self.queue:
             return self.queue.pop(0)
         live = w.net.live_pipes()
+        if self.linkloss and self.resets_left > 0 and live and rng.random() < 0.2:
+            # link-loss cases: the connection that carries a chunked entry is reset while the follower holds a part
+            # of it (chunks received, the last one not yet); the entry has to arrive intact all the same
+            for h in w.hosts:
+                n = h.node
+                if n is None or not priv(n, 'SyncObj', 'recvTransmission'):
+                    continue
+                lead = self.leader_idx()
+                for cid, c in w.net.conns.items():
+                    if lead is not None and set((c.chost, c.shost)) == set((lead, h.idx)):
+                        self.resets_left -= 1
+                        w.probe('reset_inside_chunked_entry')
+                        return [0.0, 'rst', cid, rng.randrange(2)]
         if live:
             # drain what is in flight (possibly in fragments) before the next round
             pid = rng.choice(live)
@@ -193,6 +209,7 @@ class C11Sched(Scheduler):
         self.nsubs += 1
         self.waiting = tag
         self.rounds = 0
+        self.resets_left = rng.choice([1, 1, 2, 3]) if self.linkloss else 0
         return [0.0, 'sub', i, 'echo', tag, shape, size]
 
 
@@ -253,6 +270,13 @@ class C11Spec(Spec):
             s['dlv_sizes'] = [0]
         cfg['plan'] = plan
         s['dlv_sizes'] = rng.choice([[0], [0, 0, 0, 64, 1000], [0, 0, 1, 7, 300]])
+        if idx >= len(grid) and cfg['case']['kind'] == 'random' and rng.random() < 0.3:
+            # link loss inside chunked entries (the only fault of such a run): the byte stream is delivered in
+            # fragments so that there are instants between the chunks of one entry
+            cfg['case']['linkloss'] = True
+            conf['connectionRetryTime'] = rng.choice([0, 0.2, 0.5])
+            s['dlv_sizes'] = rng.choice([[0, 64, 300, 1000], [17, 64, 300], [0, 0, 300, 1000]])
+            s['c11_rounds'] = 3000
         s['steps'] = 1 << 30
         s['quiet_rounds'] = 0
         return cfg
